@@ -1,0 +1,5 @@
+//go:build !verif
+
+package bn256
+
+func verifGate(string) {}
